@@ -21,13 +21,17 @@ def exact_full : Prop :=
 
 /-- `exact_full` is false: e.g. a target that declared `redo-ifcreate f` is run again in the same run
 once `f` has been *built* in that run; likewise when a higher-priority .do candidate is itself a
-target built in the run, when an overridden file was edited a second time (repaired in /repo:
-its stamp was never refreshed), and when a real file is named like the `//ALWAYS` pseudo file. -/
+target built in the run, when a removed overridden file that a dirtiness check turned into a source
+with failure mark 0 (override flag kept) was re-created by hand (`start_self` leaves such a record
+alone for ever), and when a real file is named like the `//ALWAYS` pseudo file.  (A former fourth
+counterexample — an overridden file edited a second time, whose stamp was never refreshed — is
+repaired: `override_edited_again_is_recorded`, `Once.Ex.override_edited_again_once`.) -/
 theorem exact_full_false : ¬ exact_full := Once.ranNodup_false
 
 /-- **At most once per command, for every reachable history**: under the cleanliness conditions
 `Once.Clean` (no .do candidate, `redo-ifcreate` object or `//ALWAYS` is itself a target; no file is
-named like `//ALWAYS`; every overridden file is in step with its record) and with the (repaired)
+named like `//ALWAYS`; every overridden file that exists carries no failure mark and is still recorded
+as generated or is in step with its record — it may have been edited again) and with the (repaired)
 out-of-band defect off, the scripts executed by one `redo-ifchange ts` from any world reached from the
 empty project by any history are pairwise different — however many dependents request a target, at
 any nesting depth, through the out-of-band path, with failures and `-k`.  Each condition of `Clean`
@@ -43,6 +47,40 @@ theorem at_most_once_per_command (d0 d : Defects) (hd : d.oobRebuildsDepsNotTarg
 theorem at_most_once_of_wf (d : Defects) (hd : d.oobRebuildsDepsNotTarget = false) (n : Nat) (w : World)
     (ts : List Nat) (kg : Bool) (hwf : Once.WF w) (hc : Once.Clean w) : Once.RanNodupFrom d n w ts kg :=
   Once.ran_nodup_of_wf d hd n w ts kg hwf hc
+
+/-- **An overridden file that was edited again gets its new stamp recorded** (the repair of the
+fourth counterexample to `exact_full`): for a generated, overridden, existing target and *any*
+recorded stamp, `start_self` leaves the record of `t` with the current stamp, the override flag kept
+and no failure mark; the file is untouched and nothing is executed.  So the next dirtiness check
+compares equal stamps, and the over-build after a second hand edit cannot recur. -/
+theorem override_edited_again_is_recorded (E : Engine) (d : Defects) (cx : Ctx) (t : Nat) (sf : Rec) (w : World)
+    (hex : existsF w t = true) (hg : sf.isGenerated = true) (ho : sf.isOverride = true) :
+    (startSelf E d cx t sf w).1 = 0 ∧
+    ((startSelf E d cx t sf w).2.recs t).stamp = some (readStamp w t) ∧
+    ((startSelf E d cx t sf w).2.recs t).stamp = some (readStamp (startSelf E d cx t sf w).2 t) ∧
+    ((startSelf E d cx t sf w).2.recs t).isOverride = true ∧
+    ((startSelf E d cx t sf w).2.recs t).failed = none ∧
+    (startSelf E d cx t sf w).2.fs = w.fs ∧
+    Once.ranList (startSelf E d cx t sf w).2 = Once.ranList w := by
+  have hns : readStamp w t ≠ .missing := by
+    unfold readStamp existsF at *
+    cases h : w.fs t <;> simp_all
+  have hex' : (w.fs t).isSome = true := hex
+  have hst : (updateStamp (ev w (.warnOverride t)) t sf cx.runid).stamp = some (readStamp w t) := by
+    unfold updateStamp
+    dsimp only
+    split
+    · rename_i h; exact h
+    · rfl
+  simp [startSelf, hg, ho, hns, hex', existsF, setRec, Once.ranList, ev, setOverride]
+  exact ⟨hst, hst⟩
+
+/-- Non-vacuity: a stale recorded stamp, twice-edited file. -/
+example : ((startSelf (engine {} 0) {} { runid := 5 } 1
+      { isGenerated := true, isOverride := true, changed := some 2, stamp := some (.st 3 0) }
+      { initWorld (fun _ => []) with fs := fun x => if x = 1 then some { content := srcContent 8, ms := 9, rest := 0 } else none }).2.recs 1).stamp
+    = some (.st 9 0) := by
+  simp [startSelf, readStamp, detectOverride, existsF, setOverride, updateStamp, setChanged, setRec, ev, initWorld]
 
 /-- The memoised verdict: a file already verified in this run is reported clean without being
 examined again and without any write (so a shared dependency is not re-traversed and, having
